@@ -47,6 +47,8 @@ pub enum Op {
     Remove(i64),
     Reserve(usize),
     Extend(Vec<usize>),
+    /// rebuild the (still pristine) group through its `FromIterator` impl
+    FromIter(Vec<usize>),
 }
 
 pub struct View {
